@@ -2,9 +2,15 @@
 
 case generator (random nestings, depth <= 5), real-code runner (real KDSubset / SubsetWrapper / ShuffleWrapper / RepeatWrapper /
 KDConcatDataset / KDWrapper subclasses over an id-encoded base), independent property oracle, PropertyCheck subclass.
+
+Every in-domain stack is also followed through a later life (`run_history`, judged by `judge_history` with the same statement as the
+first reads, on the index maps the layers hold at that moment): index maps changed in place / replaced between reads, deepcopy and
+pickle copies of the used stack, a second instance alive at the same time, a second stack on top of shared layers.
 """
+import copy
 import itertools
 import json
+import pickle
 import random
 import signal
 import time
@@ -81,6 +87,12 @@ def _classes():
     class Plain2(KDWrapper):
         pass
 
+    # the harness-side classes live in a function: publish them under module-level names so that stacks can be pickled
+    for cls in (Base, Plain, Plain2):
+        cls.__qualname__ = f"_kdv_{cls.__name__}"
+        cls.__module__ = __name__
+        globals()[cls.__qualname__] = cls
+
     _CLASSES.update(np=np, torch=torch, Base=Base, Plain=Plain, Plain2=Plain2, KDSubset=KDSubset, KDConcatDataset=KDConcatDataset,
                     SubsetWrapper=SubsetWrapper, ShuffleWrapper=ShuffleWrapper, RepeatWrapper=RepeatWrapper,
                     XTransformWrapper=XTransformWrapper, LabelSmoothingWrapper=LabelSmoothingWrapper, KDWrapper=KDWrapper)
@@ -104,6 +116,10 @@ def _container(idx, cont):
         return C["np"].array(idx, dtype=C["np"].int64)
     if cont == "torch":
         return C["torch"].tensor(idx, dtype=C["torch"].long)
+    if cont == "np32":
+        return C["np"].array(idx, dtype=C["np"].int32)
+    if cont == "torch32":
+        return C["torch"].tensor(idx, dtype=C["torch"].int32)
     return list(idx)
 
 
@@ -190,10 +206,40 @@ def uids_of(spec):
     return out
 
 
-def run_real(case):
-    """same answer layout as the Lean driver's im.run (plus `getdim`, which is checked against `root`)"""
+def _read(ds, ks, converters=True, ktype="int"):
+    """everything the property speaks about for one stack object as it is now: len, per-sample access, bulk access, converters
+    (ktype: the integer type the per-sample indices are handed over in - samplers built on numpy yield numpy integers)"""
     C = _classes()
     from kappadata.utils.getall_as_tensor import getall_as_list, getall_as_numpy, getall_as_tensor
+    out = {"len": _guard(lambda: len(ds))}
+    conv_k = C["np"].int64 if ktype == "np.int64" else int
+    out["items"] = [_guard(lambda k=k: _decode(ds.getitem_x(conv_k(k)))) for k in ks]
+
+    def bulk():
+        r = ds.getall_x()
+        kind = "list" if isinstance(r, list) else "tensor" if C["torch"].is_tensor(r) else \
+            "ndarray" if isinstance(r, C["np"].ndarray) else type(r).__name__
+        return [kind, [_decode(v) for v in r]]
+
+    out["getall"] = _guard(bulk)
+    if not converters:
+        return out
+
+    def conv(f, want):
+        r = f(ds, item="x")
+        if not want(r):
+            return f"wrong-type:{type(r).__name__}"
+        return [_decode(v) for v in (r.tolist() if not isinstance(r, list) else r)]
+
+    out["as_list"] = _guard(lambda: conv(getall_as_list, lambda r: isinstance(r, list)))
+    out["as_numpy"] = _guard(lambda: conv(getall_as_numpy, lambda r: isinstance(r, C["np"].ndarray)))
+    out["as_tensor"] = _guard(lambda: conv(getall_as_tensor, C["torch"].is_tensor))
+    return out
+
+
+def run_real(case):
+    """same answer layout as the Lean driver's im.run (plus `getdim`, which is checked against `root`)"""
+    _classes()
     env = {"log": [], "bases": {}, "objs": {}}
     old = signal.signal(signal.SIGALRM, _alarm)
     signal.setitimer(signal.ITIMER_REAL, 5.0)
@@ -207,30 +253,13 @@ def run_real(case):
             except Exception as e:  # noqa
                 return {"build": _exc_name(e)}
             out = {"build": "ok"}
-            out["len"] = _guard(lambda: len(ds))
-            out["items"] = [_guard(lambda k=k: _decode(ds.getitem_x(k))) for k in case["ks"]]
-
-            def bulk():
-                r = ds.getall_x()
-                kind = "list" if isinstance(r, list) else "tensor" if C["torch"].is_tensor(r) else \
-                    "ndarray" if isinstance(r, C["np"].ndarray) else type(r).__name__
-                return [kind, [_decode(v) for v in r]]
-
-            out["getall"] = _guard(bulk)
+            first = _read(ds, case["ks"])
+            out["len"], out["items"], out["getall"] = first["len"], first["items"], first["getall"]
             out["hasattr"] = hasattr(ds, "getall_x")
-
-            def conv(f, want):
-                r = f(ds, item="x")
-                if not want(r):
-                    return f"wrong-type:{type(r).__name__}"
-                return [_decode(v) for v in (r.tolist() if not isinstance(r, list) else r)]
-
-            out["as_list"] = _guard(lambda: conv(getall_as_list, lambda r: isinstance(r, list)))
-            out["as_numpy"] = _guard(lambda: conv(getall_as_numpy, lambda r: isinstance(r, C["np"].ndarray)))
-            out["as_tensor"] = _guard(lambda: conv(getall_as_tensor, C["torch"].is_tensor))
+            out["as_list"], out["as_numpy"], out["as_tensor"] = first["as_list"], first["as_numpy"], first["as_tensor"]
             # state carried across calls: reading again (bulk and per sample) must give what the first reads gave
-            out["_again"] = {"getall": _guard(bulk), "items": [_guard(lambda k=k: _decode(ds.getitem_x(k))) for k in case["ks"]],
-                            "len": _guard(lambda: len(ds))}
+            again = _read(ds, case["ks"], converters=False)
+            out["_again"] = {"getall": again["getall"], "items": again["items"], "len": again["len"]}
             out["root"] = _guard(lambda: _bid(ds.root_dataset))
             out["getdim"] = _guard(lambda: ds.getdim_x() - 1)
             out["wrappers"] = _guard(lambda: [[_uid(w), _ty_of(w)] for w in ds.all_wrappers])
@@ -239,6 +268,9 @@ def run_real(case):
             out["has_type"] = [_guard(lambda t=t: bool(ds.has_wrapper_type(ty_to_class(t)))) for t in case["tys"]]
             out["has"] = [_guard(lambda u=u: bool(ds.has_wrapper(env["objs"].get(u, _NOBODY)))) for u in case["uids"]]
             out["lookup"] = [_guard_attr(ds, f"kdvattr_{t}") for t in [0] + case["tys"]]
+            if case.get("hist"):
+                # the stack has been used by now: its later life (index maps changed in place / replaced, copies, a second instance)
+                out["_hist"] = run_history(ds, env, case)
             del env["log"][:]
             r = _guard(lambda: ds.dispose())
             out["dispose"] = list(env["log"]) if r is None else r
@@ -248,6 +280,222 @@ def run_real(case):
     finally:
         signal.setitimer(signal.ITIMER_REAL, 0)
         signal.signal(signal.SIGALRM, old)
+
+
+# ----------------------------------------------------------------------------------------------
+# histories: what happens to a stack after it has been used
+# ----------------------------------------------------------------------------------------------
+HIST_MODES = ["inplace", "inplace", "inplace", "copy", "copy", "twin", "sibling"]
+ASSIGN_CONTS = ["list", "np", "torch", "np32", "torch32"]
+
+
+def with_hist(case, hrng):
+    """attaches a history (mode + seed, the steps are derived from them once the real index maps are known) to a case"""
+    if "hist" not in case:
+        case["hist"] = {"mode": hrng.choice(HIST_MODES), "seed": hrng.randrange(1 << 30)}
+    return case
+
+
+def _subset_nodes(spec, below=None):
+    """(node, what sits above it: None = only wrappers, "subset", "concat") for every subset layer of the stack"""
+    t = spec["t"]
+    if t == "base":
+        return []
+    if t == "concat":
+        return [x for p in spec["ds"] for x in _subset_nodes(p, "concat")]
+    if t == "subset":
+        return [(spec, below)] + _subset_nodes(spec["d"], below or "subset")
+    return _subset_nodes(spec["d"], below)
+
+
+def _children(obj):
+    """public structure of the real classes (torch Subset.dataset / ConcatDataset.datasets / KDWrapper.dataset)"""
+    C = _classes()
+    if isinstance(obj, C["KDConcatDataset"]):
+        return list(obj.datasets)
+    if isinstance(obj, (C["KDSubset"], C["KDWrapper"])):
+        return [obj.dataset]
+    return []
+
+
+def _layer_objects(obj, acc=None):
+    """uid -> layer object of a stack the harness did not construct itself (a copy)"""
+    acc = {} if acc is None else acc
+    uid = obj.__dict__.get("_kdv_uid")
+    if uid is not None:
+        acc[uid] = obj
+    for c in _children(obj):
+        _layer_objects(c, acc)
+    return acc
+
+
+def _new_values(node, rng, m):
+    """m valid positions of the layer below `node` (None: that layer has none)"""
+    n = spec_size(node["d"])
+    if n is None:
+        return [rng.randint(0, 11) for _ in range(m)]
+    if n == 0:
+        return None if m else []
+    if rng.random() < 0.5:
+        return [rng.randint(0, n - 1) for _ in range(m)]
+    return [rng.randint(-n, n - 1) for _ in range(m)]
+
+
+def _mutate(spec, objs, rng):
+    """changes the index map of one subset layer of the real stack (objs: uid -> object) and of `spec` alike; returns a description of
+    the step or None if there is nothing to change. In place = element-wise writes into the container the layer holds (what
+    rng.shuffle(layer.indices) / layer.indices[:] = ... do); containers that cannot be written (range, tuple) get a new object."""
+    nodes = [(nd, b) for nd, b in _subset_nodes(spec) if nd["uid"] in objs]
+    if not nodes:
+        return None
+    node, below = rng.choice(nodes)
+    obj = objs[node["uid"]]
+    old = list(node["idx"])
+    ops = ["perm", "perm", "assign-perm"]
+    if node["ty"] in (TY_KDSUBSET, TY_SUBSETW):
+        ops += ["set", "fill", "assign"]
+        if below != "concat":
+            ops += ["resize"]        # a concat fixes its part boundaries at construction: parts keep their size
+    op = rng.choice(ops)
+    if op in ("perm", "assign-perm"):
+        new = list(old)
+        if len(new) == 2 or (new and rng.random() < 0.3):
+            r = rng.randrange(1, len(new)) if len(new) > 1 else 0
+            new = new[r:] + new[:r]
+        else:
+            rng.shuffle(new)
+    elif op == "set":
+        new = list(old)
+        v = _new_values(node, rng, 1)
+        if not new or not v:
+            return None
+        new[rng.randrange(len(new))] = v[0]
+    else:
+        m = len(old)
+        if op == "resize":
+            # below another subset layer the map only grows (the positions that layer addresses stay valid)
+            m = rng.choice([len(old) + 1, len(old) + 2] + ([0, 1, 2, max(len(old) - 1, 0)] if below is None else []))
+        new = _new_values(node, rng, m)
+        if new is None:
+            return None
+    step = {"uid": node["uid"], "layer": SUBSET_CLS[node["ty"]], "op": op, "old": old, "new": new}
+    if op in ("perm", "set", "fill"):
+        try:
+            ind = obj.indices
+            for j, v in enumerate(new):
+                ind[j] = v
+            step["how"] = f"in place ({type(ind).__name__})"
+        except _Timeout:
+            raise
+        except Exception:  # noqa: range / tuple / read-only array
+            obj.indices = list(new)
+            step["how"] = "new list (container not writable)"
+    else:
+        cont = rng.choice(ASSIGN_CONTS)
+        obj.indices = _container(new, cont)
+        step["how"] = f"new {cont} object"
+    node["idx"] = list(new)
+    return step
+
+
+def _stage(who, step, spec, ks, ds, ktype="int"):
+    return {"who": who, "step": step, "spec": copy.deepcopy(spec), "ks": list(ks), "ktype": ktype, "reads": _read(ds, ks, ktype=ktype)}
+
+
+def _ks_now(spec, rng, ks):
+    """ks of the case while the stack keeps its size, a fresh window otherwise"""
+    size = spec_size(spec)
+    if size is None or (ks and max(ks) == size):
+        return ks
+    return ks_for(spec, size, rng)
+
+
+def run_history(ds, env, case):
+    """the later life of the used stack `ds`; returns stages {who, step, spec (what the stack is now), ks, reads}.
+    Every random choice derives from case["hist"]; nothing here is judged (the oracle does that on the stages)."""
+    spec = copy.deepcopy(case["ds"])       # construct() has filled in the index maps the layers really hold
+    try:
+        if not in_domain(spec):
+            return []
+    except _OutOfClaim:
+        return []
+    mode, rng = case["hist"]["mode"], random.Random(f"hist:{case['hist']['seed']}")
+    ks = list(case["ks"])
+    stages = []
+    kt = rng.choice(["int", "int", "int", "np.int64"])
+    if mode == "inplace":
+        # same objects, the index map of a layer is re-drawn / edited / replaced between two reads (new epoch)
+        for _ in range(rng.randint(1, 3)):
+            step = _mutate(spec, env["objs"], rng)
+            if step is None:
+                break
+            ks = _ks_now(spec, rng, ks)
+            stages.append(_stage("same objects", step, spec, ks, ds, kt))
+    elif mode == "copy":
+        # a copy of the used stack (deepcopy / pickle round trip as to a worker process) is a stack of its own
+        how = rng.choice(["deepcopy", "pickle"])
+        try:
+            cp = copy.deepcopy(ds) if how == "deepcopy" else pickle.loads(pickle.dumps(ds))
+            cp_objs = _layer_objects(cp)
+        except _Timeout:
+            raise
+        except Exception as e:  # noqa: a stack that cannot be copied is not judged
+            return [{"who": how, "error": _exc_name(e), "judged": False}]
+        stages.append(_stage(f"{how} of the used stack", None, spec, ks, cp, kt))
+        orig = copy.deepcopy(spec)
+        step = _mutate(spec, cp_objs, rng)
+        if step is not None:
+            ks2 = _ks_now(spec, rng, ks)
+            stages.append(_stage(f"{how} of the used stack", step, spec, ks2, cp, kt))
+            stages.append(_stage(f"original after its {how} was changed", None, orig, ks, ds))
+    elif mode == "twin":
+        # a second instance of the same stack with another index map in one layer is alive at the same time
+        env2 = {"log": [], "bases": {}, "objs": {}}
+        tspec = copy.deepcopy(case["ds"])
+        try:
+            twin = construct(tspec, env2)
+        except _Timeout:
+            raise
+        except Exception as e:  # noqa: the first instance of this very stack could be constructed
+            return [{"who": "second instance", "error": _exc_name(e), "judged": True, "spec": spec}]
+        step = _mutate(tspec, env2["objs"], rng)          # before the twin was ever read
+        kst = _ks_now(tspec, rng, ks)
+        stages.append(_stage("second instance (changed before its first read)", step, tspec, kst, twin))
+        stages.append(_stage("first instance after the second one was read", None, spec, ks, ds))
+        step = _mutate(tspec, env2["objs"], rng)
+        if step is not None:
+            kst = _ks_now(tspec, rng, kst)
+            stages.append(_stage("second instance", step, tspec, kst, twin, kt))
+            stages.append(_stage("first instance after the second one was changed", None, spec, ks, ds))
+    elif mode == "sibling":
+        # a second stack is put on top of the used one: both share every layer below, a change of a shared layer shows in both
+        size = spec_size(spec)
+        if size is None:
+            idx = [rng.randint(0, 11) for _ in range(rng.randint(1, 6))]
+        else:
+            idx = [rng.randrange(-size, size) for _ in range(rng.choice([size, size, size + 1, 2]))] if size else []
+        cont = rng.choice(ASSIGN_CONTS)
+        suid = max(uids_of(spec) + [100]) + 500
+        sspec = {"t": "subset", "uid": suid, "ty": TY_KDSUBSET, "cont": cont, "idx": idx, "d": spec}
+        try:
+            sib = _classes()["KDSubset"](ds, _container(idx, cont))
+        except _Timeout:
+            raise
+        except Exception as e:  # noqa
+            return [{"who": "KDSubset on top of the used stack", "error": _exc_name(e), "judged": True, "spec": copy.deepcopy(sspec)}]
+        objs = dict(env["objs"])
+        objs[suid] = sib
+        kss = ks_for(sspec, len(idx), rng)
+        stages.append(_stage("KDSubset on top of the used stack", None, sspec, kss, sib, kt))
+        for _ in range(rng.randint(1, 2)):
+            step = _mutate(sspec, objs, rng)
+            if step is None:
+                break
+            kss = _ks_now(sspec, rng, kss)
+            ks = _ks_now(spec, rng, ks)
+            stages.append(_stage("KDSubset on top of the used stack", step, sspec, kss, sib, kt))
+            stages.append(_stage("used stack below the new KDSubset", step, spec, ks, ds))
+    return stages
 
 
 def _uid(obj):
@@ -423,24 +671,19 @@ def describe(spec):
     return f"{WRAP_CLS[spec['ty']]}({describe(spec['d'])})"
 
 
-def oracle(case, real):
-    """returns a list of Failure (property statement checked directly on the real answers)"""
-    spec = case["ds"]
-    _fill_idx(spec)
-    fails = []
+def judge_reads(spec, ks, r):
+    """the property statement on one set of reads (len, items for ks, getall, as_*) of the stack described by `spec`;
+    returns (key, what, expected, actual) tuples"""
+    out = []
     desc = describe(spec)
-    if not in_domain(spec):
-        return []
     size = spec_size(spec)
-    if real.get("build") != "ok":
-        fails.append(Failure("indexmaps:ctor", f"stack cannot be constructed ({real.get('build')}): {desc}", case, "ok", real.get("build")))
-        return fails
+    flat = None
     if size is not None:
         flat = spec_flat(spec)
-        if real["len"] != len(flat):
-            fails.append(Failure("indexmaps:len", f"len differs from the size of the index map for {desc}", case, len(flat), real["len"]))
+        if r["len"] != len(flat):
+            out.append(("indexmaps:len", f"len differs from the size of the index map for {desc}", len(flat), r["len"]))
     # per-sample accessor
-    for k, got in zip(case["ks"], real["items"]):
+    for k, got in zip(ks, r["items"]):
         try:
             exp = spec_item(spec, k)
         except _OutOfClaim:
@@ -449,42 +692,73 @@ def oracle(case, real):
             continue
         if got != exp:
             key = "indexmaps:balanced" if (spec["t"] == "concat" and spec["bal"]) else "indexmaps:getitem"
-            fails.append(Failure(key, f"getitem_x({k}) addresses the wrong underlying sample for {desc}", case, exp, got))
+            out.append((key, f"getitem_x({k}) addresses the wrong underlying sample for {desc}", exp, got))
             break
-    ag = real.get("_again")
-    if ag is not None and not has_balanced(spec):
-        for what, first, second in (("getall_x()", real["getall"], ag["getall"]), ("getitem_x", real["items"], ag["items"]),
-                                    ("len", real["len"], ag["len"])):
-            if isinstance(first, (list, int)) and first != second:
-                fails.append(Failure("indexmaps:second-read", f"reading {what} a second time gives something else than the first time "
-                                     f"(an earlier bulk read changed the stack) for {desc}", case, first, second))
-                break
     # bulk accessors
     if size is not None and not has_balanced(spec):
         kind = bulk_kind(spec)
         if kind is not None:
-            if real["getall"] != [kind, flat]:
-                fails.append(Failure("indexmaps:getall", f"getall_x() differs from the per-sample accessors for {desc}", case,
-                                     [kind, flat], real["getall"]))
+            if r["getall"] != [kind, flat]:
+                out.append(("indexmaps:getall", f"getall_x() differs from the per-sample accessors for {desc}", [kind, flat], r["getall"]))
         top_has = kind is not None or not _claims_getall(spec)
         if top_has:
             for name in ("as_list", "as_numpy", "as_tensor"):
-                if real[name] != flat:
+                if name in r and r[name] != flat:
                     src = kind if kind is not None else "per-sample"
-                    fails.append(Failure(f"getall_{name}:{src}-input", f"getall_{name}(stack, 'x') differs from the per-sample accessors "
-                                         f"(bulk source: {src}) for {desc}", case, flat, real[name]))
+                    out.append((f"getall_{name}:{src}-input", f"getall_{name}(stack, 'x') differs from the per-sample accessors "
+                                f"(bulk source: {src}) for {desc}", flat, r[name]))
     # bulk accessors of a sized stack that has a balanced concat below another layer (known finding: parts in a row vs round-robin)
     if size is not None and has_balanced(spec):
         kind = bulk_kind(spec)
         if kind is not None:
-            if real["getall"] != [kind, flat]:
-                fails.append(Failure(KNOWN_BALANCED_KEY, f"getall_x() of a stack over a balanced concat differs from the per-sample "
-                                     f"accessors (parts in a row instead of round-robin) for {desc}", case, [kind, flat], real["getall"]))
+            if r["getall"] != [kind, flat]:
+                out.append((KNOWN_BALANCED_KEY, f"getall_x() of a stack over a balanced concat differs from the per-sample "
+                            f"accessors (parts in a row instead of round-robin) for {desc}", [kind, flat], r["getall"]))
             for name in ("as_list", "as_numpy", "as_tensor"):
-                if real[name] != flat:
-                    fails.append(Failure(KNOWN_BALANCED_KEY, f"getall_{name}(stack, 'x') of a stack over a balanced concat differs from "
-                                         f"the per-sample accessors for {desc}", case, flat, real[name]))
+                if name in r and r[name] != flat:
+                    out.append((KNOWN_BALANCED_KEY, f"getall_{name}(stack, 'x') of a stack over a balanced concat differs from "
+                                f"the per-sample accessors for {desc}", flat, r[name]))
                     break
+    return out
+
+
+def _step_text(stage):
+    st = stage.get("step")
+    who = stage["who"] + (f", indices handed over as {stage['ktype']}" if stage.get("ktype", "int") != "int" else "")
+    if not st:
+        return who
+    return f"{who}: index map of layer {st['layer']}#{st['uid']} {st['op']} {st['old']} -> {st['new']} ({st['how']})"
+
+
+def oracle(case, real):
+    """returns a list of Failure (property statement checked directly on the real answers)"""
+    spec = case["ds"]
+    _fill_idx(spec)
+    fails = []
+    desc = describe(spec)
+    if not in_domain(spec):
+        return []
+    if real.get("build") != "ok":
+        fails.append(Failure("indexmaps:ctor", f"stack cannot be constructed ({real.get('build')}): {desc}", case, "ok", real.get("build")))
+        return fails
+    first = judge_reads(spec, case["ks"], real)
+    for key, what, exp, got in first:
+        if key == "indexmaps:len":
+            fails.append(Failure(key, what, case, exp, got))
+    for key, what, exp, got in first:
+        if key in ("indexmaps:getitem", "indexmaps:balanced"):
+            fails.append(Failure(key, what, case, exp, got))
+    ag = real.get("_again")
+    if ag is not None and not has_balanced(spec):
+        for what, a, b in (("getall_x()", real["getall"], ag["getall"]), ("getitem_x", real["items"], ag["items"]),
+                           ("len", real["len"], ag["len"])):
+            if isinstance(a, (list, int)) and a != b:
+                fails.append(Failure("indexmaps:second-read", f"reading {what} a second time gives something else than the first time "
+                                     f"(an earlier bulk read changed the stack) for {desc}", case, a, b))
+                break
+    for key, what, exp, got in first:
+        if key not in ("indexmaps:len", "indexmaps:getitem", "indexmaps:balanced"):
+            fails.append(Failure(key, what, case, exp, got))
     # introspection over linear chains
     ch = linear_chain(spec)
     if ch is not None:
@@ -498,6 +772,41 @@ def oracle(case, real):
         for k, v in exp.items():
             if real.get(k) != v:
                 fails.append(Failure("indexmaps:introspection", f"{k} does not resolve through the linear chain {desc}", case, v, real.get(k)))
+                break
+    # the later life of the used stack: every stage is a stack with the index maps its layers hold NOW
+    if not any(f.key != KNOWN_BALANCED_KEY for f in fails):
+        fails += judge_history(case, real.get("_hist") or [])
+    return fails
+
+
+def _in_domain_safe(spec):
+    try:
+        return in_domain(spec)
+    except _OutOfClaim:
+        return False
+
+
+def judge_history(case, stages):
+    fails = []
+    for n, stage in enumerate(stages):
+        if "error" in stage:
+            if stage.get("judged"):
+                fails.append(Failure("indexmaps:ctor:history", f"{stage['who']} cannot be constructed ({stage['error']}) although the "
+                                     f"stack itself could: {describe(stage['spec'])}", case, "ok", stage["error"]))
+            break
+        spec = stage["spec"]
+        try:
+            if not in_domain(spec):
+                break
+            found = judge_reads(spec, stage["ks"], stage["reads"])
+        except _OutOfClaim:
+            break
+        if found:
+            key, what, exp, got = found[0]
+            if key != KNOWN_BALANCED_KEY:
+                key += ":history"
+            fails.append(Failure(key, f"after [{_step_text(stage)}] (stage {n + 1} of history {case['hist']}): {what}", case, exp, got))
+            if key != KNOWN_BALANCED_KEY:
                 break
     return fails
 
@@ -811,7 +1120,11 @@ class C02(PropertyCheck):
                     "concat arity 0-4, four subset classes with list/numpy/torch index containers, four wrapper classes, four bulk kinds) "
                     "+ the Python micro-semantics table; every stack compares len, getitem_x for all k in [-len-1, len], getall_x, "
                     "getall_as_list/numpy/tensor, root_dataset, getdim, all_wrappers, get_wrappers_of_type, has_wrapper(_type), attribute "
-                    "lookup, dispose; distinct = (shape of the top three levels with classes/negativity/bulk kinds, build outcome, len, bulk outcome)")
+                    "lookup, dispose; afterwards every in-domain stack lives on (oracle only): the index map of 1-3 subset layers is permuted / "
+                    "edited in place or replaced by a new list/numpy/torch (int64/int32) object (also of another size where no concat or subset "
+                    "above fixes it) and everything is read again; or a deepcopy / pickle round trip of the used stack is read, changed and "
+                    "the original re-read; or a second instance of the stack is changed before its first read while the first is alive; "
+                    "distinct = (shape of the top three levels with classes/negativity/bulk kinds, build outcome, len, bulk outcome)")
         res.exhaustive = self.tier == "thorough"
         # Python micro-semantics (pyIdx, _to_concat_idx arithmetic, balanced arithmetic) against CPython
         pyc = py_semantics_cases()
@@ -822,11 +1135,32 @@ class C02(PropertyCheck):
             if m != r:
                 res.disagreements.append(Disagreement(c, m, r, "python micro-semantics"))
         cases = corpus + ex + rnd
+        # every stack lives on after its first reads (own random stream: the stacks themselves do not depend on it)
+        hrng = random.Random(f"C02-hist:{self.seed}")
+        for c in cases:
+            with_hist(c, hrng)
         # the real side runs first: selection wrappers (shuffle / repeat) fill in the index map they hold
         reals = [run_real(c) for c in cases]
         for c in cases:
             _fill_idx(c["ds"])
         answers = self.driver.run(cases)
+        # the model on the stack as it is at the end of its history (same objects, index maps changed meanwhile)
+        later = []
+        for case, real in zip(cases, reals):
+            stages = [st for st in real.get("_hist") or [] if "reads" in st]
+            if stages and _in_domain_safe(stages[-1]["spec"]):
+                st = stages[-1]
+                later.append(({"op": "im.run", "ds": st["spec"], "ks": st["ks"], "tys": [], "uids": []}, st, case))
+        for (req, st, case), model in zip(later, self.driver.run([x[0] for x in later])):
+            res.cases += 1
+            res.bump("later-life-vs-model")
+            if model.get("build") != "ok":
+                continue
+            keys = ("len", "items", "getall", "as_list", "as_numpy", "as_tensor")
+            diff = {k: [model.get(k), st["reads"].get(k)] for k in keys if model.get(k) != st["reads"].get(k)}
+            if diff and len(res.disagreements) < 50:
+                res.disagreements.append(Disagreement(case, {k: v[0] for k, v in diff.items()}, {k: v[1] for k, v in diff.items()},
+                                                      f"after [{_step_text(st)}]: {describe(st['spec'])}"))
         for case, model, real in zip(cases, answers, reals):
             res.cases += 1
             res.nontrivial.add(signature(case, real))
@@ -837,6 +1171,11 @@ class C02(PropertyCheck):
                 res.bump(f"getall={'ok' if isinstance(real['getall'], list) else real['getall']}")
                 for it in real["items"]:
                     res.bump(f"item={'ok' if isinstance(it, list) else it}")
+                for stage in real.get("_hist") or []:
+                    st = stage.get("step")
+                    res.bump(f"history={stage['who']}" + (f" error={stage['error']}" if "error" in stage else ""))
+                    if st:
+                        res.bump(f"history-step={st['layer']}:{st['op']}:{st['how']}")
             mv = {k: v for k, v in model.items() if k not in ("flatten", "valid")}
             rv = strip_private(real)
             if mv != rv:
@@ -876,7 +1215,7 @@ class C02(PropertyCheck):
             out += oracle(h, run_real(h))
         rng = random.Random(self.seed + 202)
         while not out and time.time() - t0 < budget_s:
-            c = gen_case(rng)
+            c = with_hist(gen_case(rng), rng)
             out += oracle(c, run_real(c))
         out.sort(key=lambda f: len(json.dumps(f.input)))
         return out
